@@ -3,9 +3,10 @@
 From Verif Require Export Closure Gen_Closure StropInst.
 Open Scope N_scope.
 
-(* Language.filter_id(tok, id_type); a stropping error (RuntimeError) is made visible as "!"+tok *)
+(* Language.filter_id(tok, id_type).  The second arm is unreachable for every non-empty token and every id type other than
+   "all" (C09's totality theorem; see ClosureInstThm.sid_of_ok): it only exists because Gallina functions are total. *)
 Definition sid_of (l : lang) (ty tok : str) : str :=
-  match strop_lang l ty tok with Ok t => t | _ => 33 :: tok end.
+  match strop_lang l ty tok with Ok t => t | _ => [] end.
 
 Definition s_make_path : str := [109; 97; 107; 101; 95; 112; 97; 116; 104].
 Definition s_unknown : str := [63].
@@ -17,16 +18,18 @@ Definition idt_of_callee (callee : str) : str * str :=
 Definition flags_of (d : deps) : flag -> bool := get_flag d.
 
 Definition mk_cfg (l : lang) (stropping : bool) (ext : str) (sns files : list str) (prefer : bool) (std : deps -> list str)
-           (stem_ default_idt : str) : lang_cfg :=
+           (stem_ default_idt : str) (tmpl_inc : bool -> list str) (has_ns : bool) : lang_cfg :=
   {| lc_sid := sid_of l; lc_stropping := stropping; lc_ext := ext;
      lc_inc_short_idt := fst (idt_of_callee inc_path_callee); lc_inc_ns_idt := snd (idt_of_callee inc_path_callee);
      lc_out_short_idt := fst (idt_of_callee out_path_callee); lc_out_ns_idt := snd (idt_of_callee out_path_callee);
      lc_dir_idt := ns_dir_idtype; lc_support_ns := sns; lc_support_files := files; lc_prefer_system := prefer;
-     lc_std := std; lc_ns_stem := stem_; lc_default_idt := default_idt |}.
+     lc_std := std; lc_ns_stem := stem_; lc_default_idt := default_idt;
+     lc_tmpl_inc := tmpl_inc; lc_has_ns_files := has_ns |}.
 
 Definition c_cfg : lang_cfg :=
   mk_cfg LC c_stropping c_ext c_support_ns c_support_files c_prefer_system
-         (fun d => table_includes c_get_includes (flags_of d) c_std_types false) c_ns_stem c_default_idtype.
+         (fun d => table_includes c_get_includes (flags_of d) c_std_types false) c_ns_stem c_default_idtype
+         (lit_includes c_tmpl_includes) c_has_ns_files.
 
 Fixpoint assoc {A} (k : str) (l : list (str * A)) : option A :=
   match l with [] => None | (k', v) :: r => if str_eqb k k' then Some v else assoc k r end.
@@ -36,10 +39,11 @@ Definition cpp_cfg (std : str) (has_variant : bool) : lang_cfg :=
   let oi := match assoc std cpp_option_includes with Some p => p | None => ([], []) end in
   mk_cfg LCpp cpp_stropping cpp_ext cpp_support_ns cpp_support_files cpp_prefer_system
          (fun d => table_includes cpp_get_includes (flags_of d) cpp_std_types has_variant ++ cpp_tail (fst oi) (snd oi) (flags_of d))
-         cpp_ns_stem cpp_default_idtype.
+         cpp_ns_stem cpp_default_idtype (lit_includes cpp_tmpl_includes) cpp_has_ns_files.
 
 Definition py_cfg : lang_cfg :=
-  mk_cfg LPy py_stropping py_ext py_support_ns py_support_files py_prefer_system (fun _ => []) py_ns_stem py_default_idtype.
+  mk_cfg LPy py_stropping py_ext py_support_ns py_support_files py_prefer_system (fun _ => []) py_ns_stem py_default_idtype
+         (fun _ => []) py_has_ns_files.
 
 Definition tail_c : str := [95; 73; 78; 67; 76; 85; 68; 69; 68; 95].                       (* _INCLUDED_ *)
 Definition tail_cpp : str := [95; 72; 80; 80; 95; 73; 78; 67; 76; 85; 68; 69; 68].         (* _HPP_INCLUDED *)
@@ -50,3 +54,27 @@ Definition guard_cpp (t : tyid) : str := guard (sid_of LC) c_stropping tail_cpp 
 
 Definition open_ns_cpp (ns : list str) : list tok := open_namespace (sid_of LCpp) cpp_stropping cpp_default_idtype ns.
 Definition close_ns_cpp (ns : list str) : list tok := close_namespace (sid_of LCpp) cpp_stropping cpp_default_idtype ns.
+
+(* ---- std_includes_cover instantiated with the regenerated tables ---- *)
+Definition c_cov (e : feat) : bool :=
+  c_covered c_get_includes c_support_includes c_tmpl_includes c_tmpl_std_names c_filter_names c_declares c_std_types e.
+
+(* the generated C headers are self-sufficient without the support header iff base.j2 itself includes what the definitions use
+   and does not assert against macros only the support header defines; decided on the regenerated tables *)
+Definition bools : list bool := [true; false].
+Definition all_feats (pod : bool) : list feat :=
+  flat_map (fun a => flat_map (fun b => flat_map (fun c => flat_map (fun d => flat_map (fun e_ => flat_map (fun f => flat_map (fun g =>
+  flat_map (fun h => flat_map (fun i => flat_map (fun j => flat_map (fun k => map (fun m =>
+    {| f_int := a; f_float := b; f_vla := c; f_arr := d; f_boolarr := e_; f_bool := f; f_primarr := g; f_union := h; f_pod := pod;
+       f_empty := i; f_boolvla := j; f_any_union := k; f_omit_float := m |}) bools) bools) bools) bools) bools) bools) bools) bools) bools)
+    bools) bools) bools.
+Definition c_pod_selfsufficient : bool :=
+  forallb (fun e => c_float_trigger e || c_cov e) (all_feats true).
+
+(* Python: modules the type template imports literally, and those of them the interpreter / third parties provide *)
+Definition py_external : list str :=
+  [[95;95;102;117;116;117;114;101;95;95] (* __future__ *); [110;117;109;112;121] (* numpy *);
+   [110;117;109;112;121;46;116;121;112;105;110;103] (* numpy.typing *); [112;121;100;115;100;108] (* pydsdl *);
+   [119;97;114;110;105;110;103;115] (* warnings *)].
+Definition generated_support (l : lang_cfg) (omit : bool) : list str := if omit then [] else support_outputs l.
+Definition module_file (l : lang_cfg) (m : str) : str := m ++ lc_ext l.
